@@ -279,7 +279,9 @@ PAIRS = [
          subs=[(r"\(\{\}, \{\}\)", "{}")], props=("C14", "C02")),
     Pair("sgraph-po-vs-sp", SG + "yield_p_o_triples_of_target_nodes", SG + "yield_s_p_triples_of_target_nodes",
          subs=[(r"yield_p_o_triples_of_an_s", "yield_triples_of_a_node"), (r"yield_s_p_triples_of_an_o", "yield_triples_of_a_node"),
-               (r"\b(\w+)\[2\]", r"\1[END]"), (r"\b(\w+)\[0\]", r"\1[END]")], props=("C14", "C15", "C19")),
+               (r"\b(\w+)\[2\]", r"\1[END]"), (r"\b(\w+)\[0\]", r"\1[END]")], props=("C14", "C15", "C19"),
+         deep_subs=[(r"\bif (True|False):", "if FLAG:"), (r"\b_S\b", "_ROLE"), (r"\b_O\b", "_ROLE"), (r", (True|False)\)", ", FLAG)"),
+                    (r"=(True|False)\b", "=FLAG")]),
     Pair("selectors-direct-vs-inverse", SEL + "_yield_relevant_direct_triples", SEL + "_yield_relevant_inverse_triples",
          subs=[(r"yield_p_o_triples_of_target_nodes", "yield_triples_of_target_nodes"),
                (r"yield_s_p_triples_of_target_nodes", "yield_triples_of_target_nodes")], props=("C14", "C15")),
